@@ -1068,7 +1068,7 @@ def gen_sweep_cases(ctx: Ctx, n: int):
 
 
 def run_sweeps(ctx: Ctx, cases):
-    obs = core.run_driver(ctx, "c12", cases, workers=min(8, max(1, len(cases))))
+    obs = run_driver(ctx, cases, workers=min(8, max(1, len(cases))))
     for c, o in zip(cases, obs):
         if "loaded" not in o:
             ctx.broken.append(Broken("correspondence", "sweep driver crashed", str(o)[:600], c))
@@ -1104,6 +1104,19 @@ def run_sweeps(ctx: Ctx, cases):
 # ------------------------------------------------------------------------------------------ legs
 
 
+def run_driver(ctx, payloads, workers=8):
+    """core.run_driver; payloads whose worker process was lost (machine load, a timeout) are run once more in small
+    chunks.  An answer of the implementation - a violation included - is never retried."""
+    obs = core.run_driver(ctx, "c12", payloads, workers=workers)
+    lost = [i for i, o in enumerate(obs) if isinstance(o, dict) and "crash" in o]
+    if lost:
+        ctx.count("driver_payloads_retried", len(lost))
+        again = core.run_driver(ctx, "c12", [payloads[i] for i in lost], workers=min(4, len(lost)), chunk=max(1, len(lost) // 16))
+        for i, o in zip(lost, again):
+            obs[i] = o
+    return obs
+
+
 def eval_files(ctx, files, n_evals=2):
     res = core.coq_eval_many(ctx, files, timeout=600, par=8)
     out = {}
@@ -1118,7 +1131,7 @@ def eval_files(ctx, files, n_evals=2):
 
 
 def run_guards(ctx: Ctx, cases, tag="g"):
-    obs = core.run_driver(ctx, "c12", cases, workers=8)
+    obs = run_driver(ctx, cases, workers=8)
     ctx.log("guard driver done")
     pairs = []
     for c, o in zip(cases, obs):
@@ -1151,7 +1164,7 @@ def run_guards(ctx: Ctx, cases, tag="g"):
 
 
 def run_keys(ctx: Ctx, cases):
-    obs = core.run_driver(ctx, "c12", cases, workers=8)
+    obs = run_driver(ctx, cases, workers=8)
     pairs = []
     for c, o in zip(cases, obs):
         if "loaded" not in o:
@@ -1174,7 +1187,7 @@ def run_keys(ctx: Ctx, cases):
 def run_settings(ctx: Ctx, cases, tag="s"):
     payloads = [dict(k="settings", doc=to_yaml_doc(c["doc"]), run=c["run"], derive=c.get("derive"),
                      sweeps=c.get("sweeps"), files=collect_files(c["doc"])) for c in cases]
-    obs = core.run_driver(ctx, "c12", payloads, workers=8)
+    obs = run_driver(ctx, payloads, workers=8)
     ctx.log("settings driver done")
     pairs = []
     for c, o in zip(cases, obs):
